@@ -18,8 +18,10 @@ PART = "x05_containers"
 CXX_KINDS = ("ref", "item", "group")
 C_KINDS = ("cfg", "cmd", "stage")
 CFG = {
-    "quick":    dict(mc=("MC_Containers.cfg", "MC_Containers_cfg.cfg"), gen="Gen_Containers.cfg", nhist=8, steps=40),
-    "thorough": dict(mc=("MC_Containers_t.cfg", "MC_Containers_cfg_t.cfg"), gen="Gen_Containers_t.cfg", nhist=40, steps=80),
+    "quick":    dict(mc=("MC_Containers.cfg", "MC_Containers_cfg.cfg"), gen="Gen_Containers.cfg", nhist=8, steps=40,
+                     iomc="MC_IoBuf.cfg", iogen="Gen_IoBuf.cfg", ionhist=10, iosteps=40),
+    "thorough": dict(mc=("MC_Containers_t.cfg", "MC_Containers_t2.cfg", "MC_Containers_cfg_t.cfg"), gen="Gen_Containers_t.cfg",
+                     nhist=40, steps=80, iomc="MC_IoBuf_t.cfg", iogen="Gen_IoBuf_t.cfg", ionhist=80, iosteps=80),
 }
 ANY_OUT = -99
 KEYS = ("vals", "refs", "fin", "under")
@@ -218,7 +220,7 @@ def gen_history(rng, kind, steps):
             est[h] = 0
             continue
         if kind == "ref":
-            op = rng.choice(["rinsert"] * 4 + ["rset"] * 3 + ["rclear", "rclear", "rcompact", "count", "resize", "reserve"])
+            op = rng.choice(["rinsert"] * 4 + ["rset"] * 3 + ["rclear", "rclear", "rcompact", "count", "resize", "reserve", "ctor"])
             if op == "rinsert":
                 beh.append({"a": op, "arg": {"h": h + 1, "pos": pos(h), "o": obj()}})
                 est[h] += 1
@@ -228,6 +230,8 @@ def gen_history(rng, kind, steps):
                 beh.append({"a": op, "arg": {"h": h + 1, "o": obj()}})
             elif op in ("rcompact", "count"):
                 beh.append({"a": op, "arg": {"h": h + 1}})
+            elif op == "ctor":
+                beh.append({"a": op, "arg": {"h": h + 1, "len": rng.choice([-1, 0, 1, 3, 9])}})
             elif op == "resize":
                 k = rng.choice([0, 1, est[h], max(0, est[h] - 1), est[h] + 2, rng.randrange(0, 20)])
                 beh.append({"a": op, "arg": {"h": h + 1, "len": k}})
@@ -236,7 +240,7 @@ def gen_history(rng, kind, steps):
                 beh.append({"a": op, "arg": {"h": h + 1, "len": rng.choice([-1, -2, 0, est[h], est[h] + 3, 17])}})
         elif kind == "item":
             op = rng.choice(["iappend"] * 4 + ["iinsert", "iset", "iset", "ielem", "ielem", "icompact", "icompact", "count",
-                                              "resize", "reserve"])
+                                              "resize", "reserve", "ctor"])
             if op == "iappend":
                 beh.append({"a": op, "arg": {"h": h + 1, "o": obj(), "n": rng.randrange(0, NN + 1)}})
                 est[h] += 1
@@ -249,6 +253,8 @@ def gen_history(rng, kind, steps):
                 beh.append({"a": op, "arg": {"h": h + 1, "pos": max(0, pos(h)), "o": obj()}})
             elif op in ("icompact", "count"):
                 beh.append({"a": op, "arg": {"h": h + 1}})
+            elif op == "ctor":
+                beh.append({"a": op, "arg": {"h": h + 1, "len": rng.choice([-1, 0, 1, 3, 9])}})
             elif op == "resize":
                 k = rng.choice([0, 1, est[h], max(0, est[h] - 1), est[h] + 2, rng.randrange(0, 12)])
                 beh.append({"a": op, "arg": {"h": h + 1, "len": k}})
@@ -263,8 +269,18 @@ def gen_history(rng, kind, steps):
             else:
                 beh.append({"a": op, "arg": {"h": h + 1, "o": rng.randrange(1, NO + 1)}})
         elif kind == "cfg":
-            op = rng.choice(["cfgset"] * 6 + ["cfgq"] * 2 + ["cfgdel"] * 3 + ["tcopy", "cut"])
+            op = rng.choice(["cfgset"] * 6 + ["cfgq"] * 2 + ["cfgdel"] * 3 + ["tcopy", "cut", "reuse"])
             p, q = rng.randrange(1, NN + 1), rng.choice([0, 0, 0] + list(range(1, NN + 1)))
+            if op == "reuse":
+                # an element with nested elements is marked unused and its slot taken over by another name
+                p2 = rng.choice([x for x in range(1, NN + 1) if x != p])
+                p3 = rng.choice([x for x in range(1, NN + 1) if x != p])
+                beh.append({"a": "cfgset", "arg": {"h": h + 1, "p": p, "q": rng.randrange(1, NN + 1), "o": obj()}})
+                beh.append({"a": "cfgset", "arg": {"h": h + 1, "p": p2, "q": rng.choice([0, 0, 1]), "o": obj()}})
+                beh.append({"a": "cfgdel", "arg": {"h": h + 1, "p": p, "q": 0, "mode": 1}})
+                beh.append({"a": "cfgset", "arg": {"h": h + 1, "p": p3, "q": rng.choice([0, 0, 2]), "o": obj()}})
+                est[h] += 2
+                continue
             if op == "cfgset":
                 beh.append({"a": op, "arg": {"h": h + 1, "p": p, "q": q, "o": obj()}})
                 est[h] += 1
@@ -320,25 +336,27 @@ def record_traces(ck, cfg, kinds=CXX_KINDS + C_KINDS):
     return hist, recs, vlib.merge_trace(hist, recs)
 
 
-def validate_traces(ck, hist, events):
+def validate_traces(ck, hist, events, module="Trace_Containers", sigfn=None):
     """TLC validates the recorded events; an event rejected with the signature of an open known finding cuts its
     behaviour there and validation is repeated on the rest (pattern of checks/c04.py)."""
     total_gen, cuts, confirmed = 0, 0, set()
-    tag = "Trace_Containers"
+    tag = module
+    sigfn = sigfn or trace_sig
     for _ in range(12):
-        ok, matched, tres = vlib.validate_trace("Trace_Containers", events, tag=tag, xss="1g")
+        ok, matched, tres = vlib.validate_trace(module, events, tag=tag, xss="1g")
         total_gen += tres.generated
         if ok:
             return True, matched, total_gen, cuts
-        ok2, matched2, _ = vlib.validate_trace("Trace_Containers", events, tag=tag, xss="1g")
+        ok2, matched2, _ = vlib.validate_trace(module, events, tag=tag, xss="1g")
         if ok2 or matched2 != matched:
             continue
         if matched >= len(events):
             ck.violation("x:trace:short", {"binding": "B(trace validation)", "part": PART, "matched_prefix": matched})
             return False, matched, total_gen, cuts
         ev = events[matched]
-        sig, prev = trace_sig(hist, events, matched)
-        detail = {"binding": "B(trace validation)", "part": PART, "matched_prefix": matched, "rejected_event": ev,
+        sig, prev = sigfn(hist, events, matched)
+        detail = {"binding": "B(trace validation)", "part": PART, "io": module == "Trace_IoBuf", "matched_prefix": matched,
+                  "rejected_event": ev,
                   "previous_event": prev, "behaviour": hist[ev["b"]][:ev["i"] + 1]}
         if ck.violation(sig, detail):
             return False, matched, total_gen, cuts
@@ -347,11 +365,174 @@ def validate_traces(ck, hist, events):
         for k, e in enumerate(events):
             if e["b"] in drop or "obs" not in e:
                 continue
-            if trace_sig(hist, events, k)[0] in confirmed:
+            if sigfn(hist, events, k)[0] in confirmed:
                 drop[e["b"]] = e["i"]
         cuts += len(drop)
         events = [e for e in events if e["b"] not in drop or e["i"] < drop[e["b"]]]
     raise vlib.MachineryError("trace validation did not settle after 12 rounds")
+
+
+
+# --------------------------------------------------------------------------
+# io::buffer over copy-on-write arrays (spec/IoBuf.tla, drv/iobuf.cpp)
+# --------------------------------------------------------------------------
+IO_KEYS = ("arrs", "q", "pos", "on", "data")
+
+
+def io_match(exp, obs, step=None, rec=None, prev=None):
+    for k in IO_KEYS:
+        if obs.get(k) != exp[k]:
+            return "%s: expected %s, observed %s" % (k, json.dumps(exp[k])[:300], json.dumps(obs.get(k))[:300])
+    if exp["ret"] != "any" and obs.get("ret") != exp["ret"]:
+        return "ret: expected %s, observed %s" % (exp["ret"], obs.get("ret"))
+    if exp["out"] != ANY_OUT and obs.get("out") != exp["out"]:
+        return "out: expected %s, observed %s" % (exp["out"], obs.get("out"))
+    return None
+
+
+def io_class(step, pos, scratch, q):
+    arg = step.get("arg") or {}
+    k = arg.get("k", 0) - 1
+    parts = []
+    if pos is not None and 0 <= k < len(pos):
+        if pos[k] > 0:
+            parts.append("consumed")
+        if scratch and scratch[k] > 0:
+            parts.append("unfinished")
+        if q is not None and not q[k]:
+            parts.append("empty")
+    if arg.get("n") == 0 or ("data" in arg and not arg["data"]):
+        parts.append("n=0")
+    if arg.get("esz") == 0:
+        parts.append("esz=0")
+    return ",".join(parts) or "plain"
+
+
+def io_signature(why, beh, i):
+    st = beh[i]
+    prev = beh[i - 1] if i else None
+    pe, pm = (prev or {}).get("exp"), (prev or {}).get("mdl")
+    return "x:io:%s:%s:%s" % (st["a"], why.split(":")[0].lower(),
+                              io_class(st, pe and pe["pos"], pm and pm["scratch"], pe and pe["q"]))
+
+
+def io_trace_sig(hist, events, k):
+    ev = events[k]
+    prev = events[k - 1] if k and events[k - 1]["b"] == ev["b"] else None
+    why = ev["a"].lower() if ev["a"] in ("Crash", "Hang", "Missing") else "rejected"
+    st = hist[ev["b"]][ev["i"]]
+    if prev and "obs" in prev and "dbg" in prev:
+        cls = io_class(st, prev["obs"].get("pos"), prev["dbg"].get("scratch"), prev["obs"].get("q"))
+    else:
+        cls = "first"
+    return "x:io:%s:%s:%s" % (st["a"], why, cls), prev
+
+
+def build_io():
+    if "io" not in _BUILT:
+        _BUILT["io"] = vlib.build_driver("iobuf_cxx", ["iobuf.cpp"], libs=("mptcore", "mptio", "mpt++"), cxx=True)
+    return _BUILT["io"]
+
+
+def io_nontrivial(recs):
+    """bytes were written behind a consumed prefix, or a buffer was written while another buffer / array held the
+    same content (clone / construction from an array logged before)."""
+    seen_share = False
+    for r in recs:
+        o, d = r.get("obs"), r.get("dbg")
+        if r.get("a") in ("bclone", "bnew") and o and o.get("ret") == "ok":
+            seen_share = True
+        if r.get("a") in ("bwrite", "bpush", "bshift") and o and d:
+            if seen_share or any(p > 0 for p in o.get("pos", [])):
+                return True
+    return False
+
+
+def do_io_replay(cfgname):
+    gen = vlib.tlc("Gen_IoBuf", cfgname, workers=1, tag="Gen_IoBuf")
+    if gen.error or gen.violation:
+        raise vlib.MachineryError("behaviour export failed (%s): %s %s" % (cfgname, gen.error, gen.violation or ""))
+    behs = vlib.parse_behaviours(gen.out)
+    gen.out = ""
+    recs, _ = vlib.run_driver(build_io(), vlib.to_script(behs), timeout=1500)
+    mms = vlib.compare(behs, recs, io_match)
+    found = []
+    for mm in mms:
+        beh = behs[mm["b"]]
+        found.append((io_signature(mm["why"], beh, mm["i"]),
+                      {"binding": "A(replay)", "part": PART, "io": True, "behaviour": beh[:mm["i"] + 1], "step": mm["i"],
+                       "why": mm["why"], "record": mm["rec"]}))
+    by = vlib.group_records(recs)
+    nt = set()
+    for b, beh in enumerate(behs):
+        if io_nontrivial(by.get(b, [])):
+            nt.add("io" + seq_key(beh))
+    mid = len(behs) // 2
+    return dict(key="io", found=found, nt=nt,
+                note=dict(behaviours=len(behs), steps=sum(len(b) for b in behs), mismatches=len(mms),
+                          transitions=gen.generated, skeleton_states=gen.distinct),
+                samples=[vlib.sample_repr(b) for b in behs[mid:mid + 1]], transitions=gen.generated)
+
+
+IO_NA, IO_NB = 3, 3
+IO_EDGES = (0, 1, 2, 3, 62, 63, 64, 65, 127, 128, 129)
+
+
+def gen_io_history(rng, steps):
+    beh = [{"a": "init", "arg": {"na": IO_NA, "nb": IO_NB}}]
+    ctr = [0]
+
+    def data(n, text=False):
+        d = []
+        for _ in range(n):
+            ctr[0] += 1
+            d.append(0 if (text and rng.random() < 0.25) else 1 + ctr[0] % 250)
+        return d
+
+    def length():
+        return rng.choice([0, 1, 1, 2, 3, 4, 6, rng.randrange(0, 40), rng.choice(IO_EDGES)])
+
+    for _ in range(steps):
+        k = rng.randrange(IO_NB) + 1
+        h = rng.randrange(IO_NA) + 1
+        op = rng.choice(["aset", "aappend", "bnew", "bnew", "bclone", "brelease", "bwrite", "bwrite", "bwrite", "bpush", "bread",
+                         "bread", "bread", "bshift", "bshift", "breset", "bvalue", "badvance", "badvance"])
+        if op in ("aset", "aappend"):
+            beh.append({"a": op, "arg": {"h": h, "data": data(length(), True)}})
+        elif op == "bnew":
+            beh.append({"a": op, "arg": {"k": k, "h": h}})
+        elif op == "bclone":
+            beh.append({"a": op, "arg": {"k": k, "from": rng.choice([x for x in range(1, IO_NB + 1) if x != k])}})
+        elif op in ("brelease", "breset", "bvalue", "badvance"):
+            beh.append({"a": op, "arg": {"k": k}})
+        elif op == "bwrite":
+            esz = rng.choice([1, 1, 1, 2, 3])
+            n = length()
+            beh.append({"a": op, "arg": {"k": k, "data": data(n - n % esz, True), "esz": esz}})
+        elif op == "bpush":
+            beh.append({"a": op, "arg": {"k": k, "data": data(rng.choice([0, 0, 1, 2, 5]), True)}})
+        elif op == "bread":
+            beh.append({"a": op, "arg": {"k": k, "n": rng.choice([0, 1, 1, 2, 3, 5, 70, length()]), "esz": rng.choice([0, 1, 1, 1, 2, 3])}})
+        else:
+            beh.append({"a": op, "arg": {"k": k, "n": rng.choice([0, 0, 0, 1, 2, 3, length()])}})
+    return beh
+
+
+def io_record(ck, cfg):
+    hist = [gen_io_history(ck.rng, cfg["iosteps"]) for _ in range(cfg["ionhist"])]
+    recs, _ = vlib.run_driver(build_io(), vlib.to_script(hist))
+    return hist, recs, vlib.merge_trace(hist, recs)
+
+class _Locked:
+    """Check.violation from worker threads (file names are numbered: one at a time)"""
+
+    def __init__(self, ck):
+        import threading
+        self.ck, self.lock = ck, threading.Lock()
+
+    def violation(self, sig, detail):
+        with self.lock:
+            return self.ck.violation(sig, detail)
 
 
 # --------------------------------------------------------------------------
@@ -362,17 +543,26 @@ def run_part(ck, tier):
     cfg = CFG[tier]
     build("ref")
     build("cfg")
+    build_io()
     hist, recs, events = record_traces(ck, cfg)            # uses ck.rng: before the threads start
-    with ThreadPoolExecutor(max_workers=4) as ex:
+    iohist, iorecs, ioevents = io_record(ck, cfg)
+    with ThreadPoolExecutor(max_workers=7) as ex:
         mcs = [("containers: exhaustive " + m, ex.submit(vlib.tlc, "MC_Containers", m, 4, tag="MC_" + m)) for m in cfg["mc"]]
+        mcs.append(("containers: exhaustive " + cfg["iomc"], ex.submit(vlib.tlc, "MC_IoBuf", cfg["iomc"], 4, tag="MC_IoBuf")))
+        iorep = ex.submit(do_io_replay, cfg["iogen"])
+        lck = _Locked(ck)
+        tv = ex.submit(validate_traces, lck, hist, events)
+        tvio = ex.submit(validate_traces, lck, iohist, ioevents, "Trace_IoBuf", io_trace_sig)
         behs, ngen, nst = do_gen(cfg["gen"])
         reps = [ex.submit(do_replay, "cxx", [b for b in behs if kind_of(b) in CXX_KINDS]),
                 ex.submit(do_replay, "c", [b for b in behs if kind_of(b) in C_KINDS])]
-        results = [f.result() for f in reps]
+        results = [f.result() for f in reps] + [iorep.result()]
         mcres = [(w, f.result()) for w, f in mcs]
+        ok, matched, tgen, cuts = tv.result()
+        iook, iomatched, iotgen, iocuts = tvio.result()
     for what, res in mcres:
         ck.add_tlc(res, what)
-    ck.cov["transitions"] += ngen
+    ck.cov["transitions"] += ngen + results[-1]["transitions"]
     note = ck.notes.setdefault(PART, {})
     note["skeleton_states"] = nst
     nt = set()
@@ -383,31 +573,41 @@ def run_part(ck, tier):
         ck.cov["evaluations"] += r["note"]["behaviours"]
         note.setdefault("replay", {})[r["key"]] = r["note"]
         ck.cov["samples"] = list(ck.cov.get("samples") or []) + r["samples"][:1]
-    ok, matched, tgen, cuts = validate_traces(ck, hist, events)
-    ck.cov["transitions"] += tgen
+    ck.cov["transitions"] += tgen + iotgen
     by = vlib.group_records(recs)
     for b, beh in enumerate(hist):
         if nontrivial(by.get(b, [])):
             nt.add("t" + seq_key(beh))
+    by = vlib.group_records(iorecs)
+    for b, beh in enumerate(iohist):
+        if io_nontrivial(by.get(b, [])):
+            nt.add("tio" + seq_key(beh))
     if ok:
         ck.cov["traces_validated_against_impl"] += len(hist)
-    ck.cov["evaluations"] += len(hist)
+    if iook:
+        ck.cov["traces_validated_against_impl"] += len(iohist)
+    ck.cov["evaluations"] += len(hist) + len(iohist)
     ck.cov["distinct_nontrivial"] += len(nt)
     note["trace"] = dict(histories=len(hist), events=len(events), matched=matched, accepted=ok,
                          behaviours_cut_at_known_finding=cuts)
+    note["trace_io"] = dict(histories=len(iohist), events=len(ioevents), matched=iomatched, accepted=iook,
+                            behaviours_cut_at_known_finding=iocuts)
     note["distinct_nontrivial"] = len(nt)
     note["wall_s"] = round(time.time() - t0, 1)
     ck.cov["rule"] = (ck.cov.get("rule") or "") + (
         "  Containers part: one behaviour per transition of the TLC state graph of Containers under the view (kind; handle 1: "
         "per element named / holds object / first element with the same object and name / nested fill; buffer present, "
         "no-copy; other handles: present, shares with 1, length), replayed into reference_array, item_array, item_group + "
-        "add_items (C++) and into config item, command and value store tables (C); seeded histories over 4 handles, 4 "
-        "objects, 5 names per kind validated by TLC.  Non-trivial = a call released a reference while another element kept "
-        "one, or acted on a shared buffer.")
+        "add_items (C++) and into config item, command and value store tables (C); the same for IoBuf (buffer 1: consumed / "
+        "readable / unfinished counts, first zero byte) replayed into io::buffer::metatype; seeded histories (4 handles, 4 "
+        "objects, 5 names per kind; 3 arrays, 3 buffers, lengths around the allocation granularity) validated by TLC.  "
+        "Non-trivial = a call released a reference while another element kept one, acted on a shared buffer, or wrote "
+        "behind consumed bytes / next to a clone.")
     ck.assumptions = list(ck.assumptions or []) + [
-        "drv/containers.cpp and drv/containers.c count addref/unref/end-of-life calls and heap blocks without judgement",
+        "drv/containers.cpp, drv/containers.c and drv/iobuf.cpp count addref/unref/end-of-life calls and heap blocks and copy "
+        "bytes without judgement",
         "heap blocks alive are counted through the sanitizer's malloc/free hooks (final release only)"]
-    return ok
+    return ok and iook
 
 
 def replay(path):
@@ -417,15 +617,18 @@ def replay(path):
     if not beh:
         print(json.dumps(det, indent=1)[:4000])
         return 2
-    exe = build(kind_of(beh))
+    io = bool(det.get("io"))
+    exe = build_io() if io else build(kind_of(beh))
     recs, _ = vlib.run_driver(exe, vlib.to_script([beh]))
     if all("exp" in s for s in beh):
-        mms = vlib.compare([beh], recs, match)
+        mms = vlib.compare([beh], recs, io_match if io else match)
         for mm in mms:
-            print("VIOLATION property=C05 replay=%s  (%s: %s)" % (path, signature(kind_of(beh), mm["why"], beh, mm["i"]), mm["why"]))
+            sig = io_signature(mm["why"], beh, mm["i"]) if io else signature(kind_of(beh), mm["why"], beh, mm["i"])
+            print("VIOLATION property=C05 replay=%s  (%s: %s)" % (path, sig, mm["why"]))
         return 1 if mms else 0
     events = vlib.merge_trace([beh], recs)
-    ok, matched, _ = vlib.validate_trace("Trace_Containers", events, tag="Trace_Containers_replay", xss="1g")
+    module = "Trace_IoBuf" if io else "Trace_Containers"
+    ok, matched, _ = vlib.validate_trace(module, events, tag=module + "_replay", xss="1g")
     if not ok:
         print("VIOLATION property=C05 replay=%s  (trace rejected at event %d: %s)" %
               (path, matched, json.dumps(events[matched])[:600] if matched < len(events) else "-"))
